@@ -261,10 +261,17 @@ func genScenario(rng *rand.Rand, id string) *scenario {
 	}
 	sc.NoTemplateLabels = rng.Intn(12) == 0
 	values := []string{"v1", "v2", "v3"}
+	// children of different kinds often share one name (the "named after the parent" convention);
+	// a third of the scenarios do that
+	sharedNames := rng.Intn(3) == 0
 	for _, k := range sc.Kinds {
 		n := 1 + rng.Intn(3)
 		for i := 0; i < n; i++ {
-			sc.Kids = append(sc.Kids, kidCfg{Kind: k.Kind, Name: fmt.Sprintf("%s-%s-%d", lower(k.Kind), id, i), Value: values[rng.Intn(len(values))]})
+			name := fmt.Sprintf("%s-%s-%d", lower(k.Kind), id, i)
+			if sharedNames {
+				name = fmt.Sprintf("kid-%s-%d", id, i)
+			}
+			sc.Kids = append(sc.Kids, kidCfg{Kind: k.Kind, Name: name, Value: values[rng.Intn(len(values))]})
 		}
 	}
 	// initial contents
